@@ -62,16 +62,19 @@ class Result:
 
 
 class AbsMapper:
-    def __init__(self, handlers):
+    def __init__(self, handlers, answer_none=False):
         self.handlers = set(handlers)
         self.calls = []
         self._cache = {}
+        # (handlers of walk mappers answer None: a legitimate result, which a
+        # look-aside must be able to store and serve)
+        self.answer_none = answer_none
 
     def marker(self, kind, name):
         def f(*args, **kwargs):
             r = Result(kind, name, args, kwargs)
             self.calls.append(r)
-            return r
+            return None if self.answer_none else r
         return f
 
 
@@ -296,6 +299,20 @@ def judge(fn, cached=False, skip_own=False, module_tree=None, class_node=None,
                         if again is not got or len(mp.calls) != before:
                             wit.append(f"{label}: a second request is computed "
                                        "again instead of served from the table")
+                        # ... also when what the handler answered is None
+                        mpn = AbsMapper(hs, answer_none=True)
+                        try:
+                            r1 = run(mpn, node, extras, kw)
+                            n1 = len(mpn.calls)
+                            r2 = run(mpn, node, extras, kw)
+                        except (Raised, StepBound):
+                            r1 = r2 = "raised"
+                            n1 = -1
+                        if r1 is not None or r2 is not None or \
+                                len(mpn.calls) != n1:
+                            wit.append(f"{label}: a handler that answers None "
+                                       "is run again on the second request "
+                                       "(None is taken for 'not in the table')")
     # foreign objects
     for obj in (5, 2.5, "s", (1, 2), [1, 2]) if foreign else ():
         n += 1
